@@ -103,6 +103,15 @@ let h_hdr args =
       Printf.sprintf "%s %d" (s_show (S.c04_header_stage bs)) hci
   | _ -> "ERR args"
 
+(* c04_hval <size> <proto> <profile> <datasize> <datatype hex> <crc> -> Header.CheckIntegrity of that Header value: 0 nil | 1 error | 2 integrity *)
+let h_hval args =
+  match args with
+  | [ sz; pr; pf; ds; dt; crc ] ->
+      let n x = s_n_of_int (int_of_string x) in
+      (match S.c04_hci_value (n sz) (n pr) (n pf) (n ds) (s_bytes (ints_of_hex dt)) (n crc) with
+       | None -> "0" | Some true -> "2" | Some false -> "1")
+  | _ -> "ERR args"
+
 (* c04_msb <n> <sh> <p> -> hex of the MSB-first error string and its arc *)
 let h_msb args =
   match args with
@@ -118,4 +127,5 @@ let install (register : string -> (string list -> string) -> unit) =
   register "c04_verdict" h_verdict;
   register "c04_bursts" h_bursts;
   register "c04_hdr" h_hdr;
+  register "c04_hval" h_hval;
   register "c04_msb" h_msb
